@@ -641,6 +641,19 @@ func Leaves(full bool) []*Spec {
 	add(leaf("error:verbose", func(k string) zapcore.Field { return zap.NamedError(k, verboseErr{"v"}) }, func(k string, r Ref) []jsonx.Member {
 		return []jsonx.Member{{Key: k, Val: jsonx.S("v")}, {Key: k + "Verbose", Val: jsonx.S("v\n\tat frame \"x\"")}}
 	}))
+	// a verbose form that differs from the message without being longer (a terse code; same length; one byte)
+	for _, tv := range [][2]string{{"a long message", "E42 db.go:17"}, {"abcd", "abcX"}, {"msg", "m"}} {
+		tv := tv
+		add(leaf("error:verbose-form-not-longer("+tv[1]+")", func(k string) zapcore.Field { return zap.NamedError(k, terseVerboseErr{tv[0], tv[1]}) }, func(k string, r Ref) []jsonx.Member {
+			return []jsonx.Member{{Key: k, Val: jsonx.S(tv[0])}, {Key: k + "Verbose", Val: jsonx.S(tv[1])}}
+		}))
+	}
+	add(leaf("error:group-with-terse-verbose-member", func(k string) zapcore.Field {
+		return zap.NamedError(k, groupErr{[]error{errors.New("ok1"), terseVerboseErr{"a long message", "E42"}}})
+	}, func(k string, r Ref) []jsonx.Member {
+		return []jsonx.Member{{Key: k, Val: jsonx.S("group failed")}, {Key: k + "Causes", Val: jsonx.A(
+			jsonx.O().Add("error", jsonx.S("ok1")), jsonx.O().Add("error", jsonx.S("a long message")).Add("errorVerbose", jsonx.S("E42")))}}
+	}))
 	pe := leaf("error:Error()-panics", func(k string) zapcore.Field { return zap.NamedError(k, panicErr{}) }, func(k string, r Ref) []jsonx.Member {
 		return one(k+"Error", jsonx.Containing("error \"boom\""))
 	})
@@ -814,3 +827,15 @@ func (p panicsWith) String() string { panic(p.v) }
 type derefStrX struct{ s string }
 
 func (d *derefStrX) String() string { return d.s } // nil receiver: nil dereference
+
+// terseVerboseErr's %+v form is its own text, unrelated in length to the message.
+type terseVerboseErr struct{ msg, verbose string }
+
+func (e terseVerboseErr) Error() string { return e.msg }
+func (e terseVerboseErr) Format(f fmt.State, c rune) {
+	if c == 'v' && f.Flag('+') {
+		fmt.Fprint(f, e.verbose)
+		return
+	}
+	fmt.Fprint(f, e.msg)
+}
